@@ -25,6 +25,7 @@ import (
 	"io"
 	"net/http"
 	"strconv"
+	"sync"
 	"time"
 
 	"github.com/nuts-foundation/go-did/vc"
@@ -102,7 +103,17 @@ func (cs *StatusList2021) Verify(credentialToVerify vc.VerifiableCredential) err
 	return nil
 }
 
+// refreshMutexes holds a mutex per status list (by URL), see statusList()
+var refreshMutexes sync.Map
+
 func (cs *StatusList2021) statusList(statusListCredential string) (*credentialRecord, error) {
+	// One at a time per status list: of two verifications that find the stored copy outdated, the second waits for the
+	// first and uses what it stored. Otherwise a download that started earlier can overwrite the result of a later one,
+	// and a revocation that was already known is forgotten until the copy is outdated again.
+	refreshMutex, _ := refreshMutexes.LoadOrStore(statusListCredential, &sync.Mutex{})
+	refreshMutex.(*sync.Mutex).Lock()
+	defer refreshMutex.(*sync.Mutex).Unlock()
+
 	cr, err := cs.loadCredential(statusListCredential)
 	if err != nil {
 		// assume any error means we don't have the credential, so try fetching remote
